@@ -585,7 +585,7 @@ fn replay_daily_marks(sc: &Value) -> Value {
                 old_room_id: g_opt_uid(&n["old_room_id"]),
                 old_mdate: n["old_mdate"].as_i64().unwrap_or(0),
                 old_verifying_key: None,
-                old_local_id: None,
+                old_local_id: n["old_local_id"].as_i64(),
                 old_fts_str: None,
                 node_fts_str: None,
             };
